@@ -61,7 +61,7 @@ type c19World struct {
 	Root   string
 	Cfgs   []*c19Cfg
 	Bases  []c19Base
-	Srv    *c19Server
+	Sess   *c19Session
 	Passwd []byte
 	H1     *c19LogDir
 	P2     *c19LogDir
@@ -247,7 +247,7 @@ func c19BuildWorld(real bool) *c19World {
 			c.Witnesses = append(c.Witnesses, WitnessConfig{MonitoringPrefix: mp + "/", LocalDirectory: cf.Dir})
 		}
 	}
-	w.Srv = c19StartServer(c, base)
+	w.Sess = c19NewSession(c, base, c19Probe{Host: c19HostH1, Path: "/tile/verif-identity", File: filepath.Join(w.H1.Dir, "tile", "verif-identity")})
 	return w
 }
 
@@ -498,7 +498,7 @@ func c19JudgeMeta(o *c19Obj, r c19Resp) string {
 func (w *c19World) httpClient() *http.Client {
 	return &http.Client{Transport: &http.Transport{
 		DialContext: func(ctx context.Context, network, addr string) (net.Conn, error) {
-			return (&net.Dialer{}).DialContext(ctx, "tcp", w.Srv.Addr)
+			return (&net.Dialer{}).DialContext(ctx, "tcp", w.Sess.Addr())
 		},
 		MaxIdleConnsPerHost: 16,
 	}, Timeout: 10 * time.Second}
@@ -686,13 +686,16 @@ func TestVerifC19(t *testing.T) {
 
 func c19Run(rp *verifmc.Report) {
 	w := c19BuildWorld(true)
-	defer w.Srv.Stop()
-	conn := c19Dial(w.Srv.Addr)
-	defer conn.Close()
+	defer func() { rp.Add("skylight_launches", float64(w.Sess.launches)); w.Sess.Stop() }()
+	conn := w.Sess
 
 	doLayout := func(cf *c19Cfg, o *c19Obj) {
 		req := c19Req{Host: cf.Host, Path: cf.Path + "/" + o.Rel}
 		r := conn.Do([]c19Req{req})[0]
+		for try := 0; try < 3 && c19JudgeLayout(o, r) != "" && !w.Sess.identityOK(); try++ {
+			w.Sess.launch()
+			r = conn.Do([]c19Req{req})[0]
+		}
 		rp.Eval("layout/" + cf.Name + "/" + o.Kind)
 		if msg := c19JudgeLayout(o, r); msg != "" {
 			rp.Violation("C19", "layout", c19Input{Kind: "layout", Cfg: cf.Name, Rel: o.Rel, Host: req.Host, Path: req.Path}, "GET %s%s (%s object): %s", req.Host, req.Path, o.Kind, msg)
@@ -703,13 +706,23 @@ func c19Run(rp *verifmc.Report) {
 	}
 	doClient := func(cf *c19Cfg) {
 		rp.Eval("client/" + cf.Name)
-		if msg := w.clientLog(cf); msg != "" {
+		msg := w.clientLog(cf)
+		for try := 0; msg != "" && try < 3 && !w.Sess.identityOK(); try++ {
+			w.Sess.launch() // the instance died under the client: not a verdict, redo
+			msg = w.clientLog(cf)
+		}
+		if msg != "" {
 			rp.Violation("C19", "client", c19Input{Kind: "client", Cfg: cf.Name}, "unmodified sunlight.Client on %s%s: %s", cf.Host, cf.Path, msg)
 		}
 	}
 	doMirror := func(m *c19MirrorLog) {
 		rp.Eval("mirror-client")
-		if msg := w.clientMirror(m); msg != "" {
+		msg := w.clientMirror(m)
+		for try := 0; msg != "" && try < 3 && !w.Sess.identityOK(); try++ {
+			w.Sess.launch()
+			msg = w.clientMirror(m)
+		}
+		if msg != "" {
 			rp.Violation("C19", "mirror-client", c19Input{Kind: "mirror-client", Cfg: m.Origin}, "unmodified torchwood.Client on the mirror of %s: %s", m.Origin, msg)
 		}
 	}
@@ -721,7 +734,25 @@ func c19Run(rp *verifmc.Report) {
 		rp.Note("outcome_examples_of_one_shard", examples)
 	}()
 	doRequests := func(reqs []c19Req, label string, depth int) {
-		for i, r := range conn.Do(reqs) {
+		resps := conn.Do(reqs)
+		// A verdict is only drawn from answers of our own verified instance: if an
+		// answer would be a violation, re-verify first; on mismatch replace the
+		// instance and ask again.
+		for try := 0; try < 3; try++ {
+			suspicious := false
+			for i, r := range resps {
+				if class, msg := w.judge(reqs[i], r); msg != "" && class != "200-alias-routemeta" {
+					suspicious = true
+					break
+				}
+			}
+			if !suspicious || w.Sess.identityOK() {
+				break
+			}
+			w.Sess.launch()
+			resps = conn.Do(reqs)
+		}
+		for i, r := range resps {
 			class, msg := w.judge(reqs[i], r)
 			outcomes[class]++
 			if len(examples[class]) < 8 {
